@@ -23,16 +23,16 @@ TIERS = {"quick": {"runs": 12000, "wall": 50}, "thorough": {"runs": 250000, "wal
 RULE = ("each run draws a program (plus test/kconfserver/Kconfig at low weight), protocol version 1-3, knobs (parser, policy, set-order salt), "
         "an initial sdkconfig (absent / tool-written in a reachable configuration / hand-written) and a session of 1-25 set / reset (options, "
         "menu ids, all, unknown ids) / load / save requests with valid and invalid targets and values; session length is drawn so every prefix "
-        "is a final state somewhere; half of the sessions end with save + restart; non-trivial = >=1 reply carried a non-empty difference "
+        "is a final state somewhere; half of the sessions end with save + restart, 30 % end on a pure `load` that is compared with a restart on the loaded file; non-trivial = >=1 reply carried a non-empty difference "
         "beyond the options named in the request; distinct = digest of (program shape, version, replies)")
 REAL = ["kconfserver.core.run_server/handle_request/handle_set/handle_reset/diff/get_ranges/get_visible/get_sym_default_value_dict",
         "kconfgen.core.get_json_values/write_config", "esp_kconfiglib (the server's own Kconfig instance, captured, never re-created by the harness)"]
-STUB = ["stdin/stdout/stderr pipes (in-process streams)", "the IDE client (documented replica: dict.update per reply)", "process restart = EOF + new run_server() on the disk"]
+STUB = ["stdin/stdout/stderr pipes (in-process text layers over byte pipes)", "the IDE client (documented replica: dict.update per reply)", "process restart = EOF + new run_server() on the disk"]
 ASSUMPTIONS = ["requests are sent one at a time (documented), so there is no interleaving to schedule",
                "v2/v3: `visible` and `defaults` must be equal as maps; `values`/`ranges` must agree on every key of the fresh state and every extra key the replica holds must be invisible in the replica",
                "v1 (no visibility channel) is compared on the options visible in the fresh state",
                "whether a reply to a valid request carries an `error` key is not judged"]
-TECHNIQUE = "deterministic simulation: in-process config server driven by an inversion-of-control client; client replica vs. from-scratch snapshot of the live configuration vs. initial message of a server restarted on the saved file"
+TECHNIQUE = "deterministic simulation: in-process config server driven by an inversion-of-control client; client replica vs. from-scratch snapshot of the live configuration vs. initial message of a server restarted on the saved file (and on the file of a final `load`)"
 DESIGN_REF = "DESIGN.md section 3, C14 (and 2.5 SimPipe)"
 LEVEL_TEXT = "Seeded exploration of request sessions over generated programs in protocol versions 1-3, with a process restart on the saved file; sampling, not enumeration."
 
